@@ -31,6 +31,16 @@ func (id ID) Validate() error {
 	if id.Type == "" {
 		return errors.Wrapf(validate.ErrValidation, "[ontology.resource] - type is required")
 	}
+	// Relationships are stored under the key from + "->" + type + "->" + to, and the
+	// relationships of a resource are found by key prefix and suffix. An ID containing
+	// the separator would make one resource's relationship keys look like another's.
+	if strings.Contains(string(id.Type), relationshipKeySep) || strings.Contains(id.Key, relationshipKeySep) {
+		return errors.Wrapf(
+			validate.ErrValidation,
+			"[ontology.resource] - type and key must not contain %q",
+			relationshipKeySep,
+		)
+	}
 	return nil
 }
 
